@@ -887,7 +887,7 @@ def get_charnos(node: ast.AST, source: str, keep_first_indent: bool = False) -> 
     if code and code[-1] == " ":
         whitespace = max(re.findall(r" *\Z$", code), key=len)
         end_charno -= len(whitespace)
-    if source[start_charno - 1] == "@" and isinstance(
+    if start_charno > 0 and source[start_charno - 1] == "@" and isinstance(
         node, (ast.ClassDef, ast.FunctionDef, ast.AsyncFunctionDef)
     ):
         start_charno -= 1
